@@ -67,7 +67,7 @@ class YAMLPath:
         if self._stringified:
             return self._stringified
 
-        self._stringified = YAMLPath._stringify_yamlpath_segments(
+        self._stringified = YAMLPath._stringify_yamlpath(
             self.unescaped, self.separator)
         return self._stringified
 
@@ -260,7 +260,7 @@ class YAMLPath:
 
         # This changes only the stringified representation
         if not value == old_value:
-            self._stringified = YAMLPath._stringify_yamlpath_segments(
+            self._stringified = YAMLPath._stringify_yamlpath(
                 self.unescaped, value)
             self._separator = value
 
@@ -914,6 +914,18 @@ class YAMLPath:
         return (coal_type, coal_value)
 
     @staticmethod
+    def _stringify_yamlpath(
+        segments: Deque[PathSegment], separator: PathSeparators
+    ) -> str:
+        """Stringify a whole YAMLPath such that it can be parsed again."""
+        ppath = YAMLPath._stringify_yamlpath_segments(segments, separator)
+        if (separator is not PathSeparators.FSLASH
+                and ppath.startswith("/")):
+            # Lest the result read as forward-slash notation
+            ppath = "\\" + ppath
+        return ppath
+
+    @staticmethod
     def _stringify_yamlpath_segments(
         segments: Deque[PathSegment], separator: PathSeparators
     ) -> str:
@@ -933,16 +945,11 @@ class YAMLPath:
 
                 # Replace a subset of special characters to alert users to
                 # potentially unintentional demarcation.
-                key_text = YAMLPath.ensure_escaped(
+                ppath += YAMLPath.ensure_escaped(
                     str(segment_attrs),
                     pathsep,
                     '(', ')', '[', ']', '^', '$', '%', ' ', "'", '"'
                 )
-                if (not ppath and key_text.startswith("/")
-                        and separator is not PathSeparators.FSLASH):
-                    # Lest the result read as forward-slash notation
-                    key_text = "\\" + key_text
-                ppath += key_text
             elif segment_type == PathSegmentTypes.INDEX:
                 ppath += "[{}]".format(segment_attrs)
             elif segment_type == PathSegmentTypes.MATCH_ALL:
